@@ -10,11 +10,117 @@
 * ManualExecutor -- stand-in for ThreadPoolExecutor: submit() only records the job; the harness runs the
                    two halves of each job (the real Disk._page_out/_page_in body, then the real Manager
                    callback) when the op list says so
-* Clock, UUIDs  -- scripted time.time_ns / uuid.uuid4
+* Clock, UUIDs  -- scripted time.time_ns / uuid.uuid4 (both only where the implementation still has the seam; the harness does not
+                   depend on HOW reader ids are produced: it canonicalises the ids it observes)
+* Hang, WatchedLock, wait_or_hang -- a check must never hang: every call into the implementation runs in a watched daemon thread;
+                   a thread that takes a plain lock it already holds is reported at once (deterministically), any other blocking call
+                   by a no-progress watchdog that looks at the scheduler state of the threads involved
 """
 import io
+import os
+import sys
 import threading
+import time as _time
 import types
+import uuid as _uuid
+
+
+class Hang(BaseException):
+    """a call into the implementation blocks for ever (BaseException: `except Exception` in the implementation must not swallow it)"""
+
+
+HANGS = {"seen": 0}
+_LOCK_TYPE = type(threading.Lock())
+
+
+class WatchedLock:
+    """stands in for one plain threading.Lock attribute of the Manager, delegating to the real lock.  It records the events and
+    turns the one deadlock a single thread can produce on its own -- a blocking acquire of a non-reentrant lock it holds --
+    into a Hang raised in that thread instead of blocking it for ever"""
+
+    def __init__(self, real, name, log):
+        self._real, self._name, self._log, self._owner = real, name, log, None
+
+    def acquire(self, blocking=True, timeout=-1):
+        me = threading.get_ident()
+        if blocking and (timeout is None or timeout < 0) and self._owner == me and self._real.locked():
+            self._log.append((self._name, "reacquire"))
+            raise Hang(f"a thread acquires the non-reentrant lock `{self._name}` while holding it: it would block for ever")
+        ok = self._real.acquire(blocking, -1 if timeout is None else timeout)
+        if ok:
+            self._owner = me
+            self._log.append((self._name, "acq"))
+        else:
+            self._log.append((self._name, "busy"))
+        return ok
+
+    def release(self):
+        self._owner = None
+        self._log.append((self._name, "rel"))
+        self._real.release()
+
+    def locked(self):
+        return self._real.locked()
+
+    def __enter__(self):
+        return self.acquire()
+
+    def __exit__(self, *a):
+        self.release()
+
+
+def watch_locks(obj, log):
+    """replace every plain-Lock attribute of obj by a WatchedLock (other lock kinds are left alone: the watchdog covers them)"""
+    names = []
+    for name, v in list(vars(obj).items()):
+        if type(v) is _LOCK_TYPE:
+            setattr(obj, name, WatchedLock(v, name, log))
+            names.append(name)
+    return names
+
+
+def _thread_state(t):
+    """(scheduler state letter, position of the innermost Python frame) of a thread; state None when /proc cannot tell"""
+    st = None
+    try:
+        with open(f"/proc/self/task/{t.native_id}/stat") as f:
+            st = f.read().rsplit(")", 1)[1].split()[0]
+    except Exception:
+        pass
+    fr = sys._current_frames().get(t.ident)
+    pos = None if fr is None else (fr.f_code.co_filename, fr.f_code.co_name, fr.f_lineno, fr.f_lasti)
+    return st, pos
+
+
+def wait_or_hang(done, beat, threads):
+    """wait for `done`; report a hang (return a description) when there is no progress (beat() unchanged) and every thread involved
+    (threads() -> the live threads working for this history that are not parked by the harness) has been asleep in the kernel at the
+    same Python instruction for a while -- a merely slow or descheduled thread is runnable, not asleep.  The first hang of a process
+    is confirmed over a longer time than later ones.  Last resort: no progress at all for several minutes."""
+    first = HANGS["seen"] == 0
+    need = 4.0 if first else 0.6
+    hard = 240.0 if first else 45.0
+    last, t_last, since, sig0 = beat(), _time.monotonic(), None, None
+    while not done.wait(0.05):
+        now = _time.monotonic()
+        b = beat()
+        if b != last:
+            last, t_last, since, sig0 = b, now, None, None
+            continue
+        if now - t_last < 0.25:
+            continue
+        states = [_thread_state(t) for t in threads() if t.is_alive()]
+        asleep = bool(states) and all(st in ("S", "t", "T") for st, _ in states)
+        sig = tuple(pos for _, pos in states)
+        if not asleep or sig != sig0:
+            since, sig0 = now, (sig if asleep else None)
+        elif now - since >= need:
+            HANGS["seen"] += 1
+            return f"no progress for {now - t_last:.1f} s, thread(s) asleep at {[p[1:3] if p else None for p in sig]}"
+        if now - t_last > hard:
+            HANGS["seen"] += 1
+            return f"no progress for {now - t_last:.0f} s"
+    return None
 
 
 class Registry:
@@ -36,6 +142,7 @@ class Gate:
         self.at_gate = False
         self.passed = False
         self.abort = False
+        self.parked = False                 # the body thread is waiting for the harness (not for the implementation)
 
 
 class FakeSharedMemory:
@@ -70,7 +177,9 @@ class FakeSharedMemory:
             g.passed = True
             g.at_gate = True
             g.progress.set()
+            g.parked = True
             g.go.wait(60)
+            g.parked = False
             if g.abort:
                 raise FileNotFoundError(2, "history ended before the unlink step", self._name)
         reg = WORLD.reg
@@ -122,7 +231,8 @@ class JobBoard:
         got = []
         args = list(j.args[:-1]) + [lambda ok: got.append(bool(ok))]
         j.got = got
-        WORLD.reg.fault = bool(fault)
+        reg = WORLD.reg          # (a thread abandoned after a hang must not touch the registry of a later history)
+        reg.fault = bool(fault)
         try:
             if j.kind != "out":
                 j.fn(*args)     # the real Disk._page_in body; it reports through our deferred callback
@@ -141,13 +251,13 @@ class JobBoard:
                 j.gate, j.thread = gate, t
                 t.start()
                 if not gate.progress.wait(60):
-                    raise RuntimeError("page-out body neither reached its unlink nor ended")
+                    raise Hang("page-out body neither reached its unlink nor ended within 60 s")
                 if gate.at_gate:
                     j.phase = "unlink"
                     return True
                 t.join(60)
         finally:
-            WORLD.reg.fault = False
+            reg.fault = False
         if len(got) != 1:
             raise RuntimeError(f"disk job body called its callback {len(got)} times")
         j.ok, j.phase = got[0], "cb"
@@ -164,6 +274,10 @@ class JobBoard:
             raise RuntimeError(f"disk job body called its callback {len(j.got)} times")
         j.ok, j.phase = j.got[0], "cb"
         return True
+
+    def busy_threads(self):
+        """threads running a real page-out body that are not parked at the gate by the harness"""
+        return [j.thread for j in self.jobs if getattr(j, "thread", None) is not None and j.thread.is_alive() and not j.gate.parked]
 
     def abort_all(self):
         """end of a history: let parked page-out bodies die without touching anything"""
@@ -213,17 +327,35 @@ class Clock:
     def sleep(self, *_):
         pass
 
+    def monotonic_ns(self):
+        return self.now
+
+    def monotonic(self):
+        return self.now / 1e9
+
+    def __getattr__(self, name):
+        return getattr(_time, name)
+
 
 class UUIDs:
-    """uuid.uuid4 scripted: str(uuid4())[:8] is the 8-hex-digit rendering of the next candidate"""
+    """stands in for the `uuid` module where the implementation still draws reader ids from uuid.uuid4: the candidates scripted for
+    the current request come first (to force collisions with ids of ongoing reads), then fresh deterministic ones; everything else
+    is the real module.  Nothing depends on the implementation using it: ids are taken from the responses"""
+    BASE = 0x70000000
 
     def __init__(self):
         self.script = []
-        self.exhausted = False
+        self.fresh = 0
+        self.drawn = 0
 
     def uuid4(self):
-        if not self.script:
-            self.exhausted = True
-            raise RuntimeError("uuid script exhausted")
-        n = self.script.pop(0)
-        return "%08x-0000-4000-8000-000000000000" % n
+        self.drawn += 1
+        if self.script:
+            n = self.script.pop(0)
+        else:
+            n = self.BASE + self.fresh
+            self.fresh += 1
+        return _uuid.UUID("%08x-0000-4000-8000-000000000000" % (n & 0xffffffff))
+
+    def __getattr__(self, name):
+        return getattr(_uuid, name)
